@@ -40,6 +40,7 @@ def load_all(prog: Prog, text: str):
     except RefError as e:
         prog.skip("parse", f"reference parser: {e}")
         return None, None
+    prog.refmodel = m
     try:
         ode = pipeline.load(text)
     except Exception as e:
@@ -512,6 +513,16 @@ def validate_encoding(prog: Prog, view, fn, slots, m=None, points=1):
                 prog.notes.append({"encoder-validation-skip": f"{fn}: {e}"[:120]})
                 return
             # the symbolic executor accepted the function but the really executed code raises
+            rm = m or getattr(prog, "refmodel", None)
+            if rm is not None:
+                # only where the model itself is defined: a model with an expression that has no real value at this
+                # point (sqrt of a negative constant, ...) is outside the property and may raise (complex, 0**-1)
+                try:
+                    for a in rm.assigns.values():
+                        refsem.numeric(a, env_from_inputs(rm, inp), rm)
+                except Exception as e2:
+                    prog.notes.append({"encoder-validation-skip": f"{fn}: reference undefined at the sample point ({e2})"[:160]})
+                    return
             prog.fact(f"{view.backend}|{fn}|real-call", False, "RealCallRaised",
                       f"{fn} raises when really called at {inp}: {type(e).__name__}: {str(e)[:200]}")
             return
